@@ -1,6 +1,6 @@
 (** C14 — a panicking closure propagates as a panic and never corrupts memory. *)
 From OrxPar Require Import Base Settings SettingsP Spec Pipeline PipelineP Machine MachineP Termination
-  Kernels KernelsP Own Program Master.
+  Kernels KernelsP Own Program Master MachineIter MachineIterP TerminationIter MasterIter.
 
 (** Closures may panic on any set of source positions.  For every schedule: a worker that
     processed a panicking position is dead (its thread unwound), so the scope / join re-raises the
@@ -19,6 +19,17 @@ Theorem C14_no_hang : forall (r : Runner) (len : nat) (stop panics : nat -> bool
               (sched ++ round_robin (m_maxt r) (phi len (m_maxt r) (mrunp r len stop panics sched)))).
 Proof. intros r len stop panics sched Hw. apply mrunp_completes; assumption. Qed.
 Print Assumptions C14_no_hang.
+
+(** the same over by-value iterator sources: a worker that unwinds has released the handle (a
+    chain closure runs after the pull), so the waiting ticket holders are served and the run
+    completes, for every set of panicking positions and every schedule prefix *)
+Theorem C14_no_hang_iter :
+  forall (r : Runner) (len : nat) (ordered : bool) (stop panics : nat -> bool) (sched : list nat),
+  runner_wf r ->
+  iall_done (imrunp r len ordered stop panics
+               (sched ++ round_robin (m_maxt r) (iphi len (m_maxt r) (imrunp r len ordered stop panics sched)))).
+Proof. intros r len ordered stop panics sched Hw. apply imrunp_completes; assumption. Qed.
+Print Assumptions C14_no_hang_iter.
 
 (** ... and while unwinding nothing is dropped twice: every source element is still moved out
     exactly once or dropped in place exactly once (the unwinding worker's chunk iterator drains
